@@ -406,10 +406,6 @@ class Yields:
             if fname in s.f:
                 from pyvc.contract import _fresh_like
                 s.f[fname] = _fresh_like(s.f[fname], "%s.%s" % (tag, fname))
-        rel = getattr(self.con, "rely", None)
-        if rel:
-            for nm, cl in rel(st, s):
-                s.assume(cl)
         # ---- resumption guarantee
         if isinstance(value, VObj) and value.kind == "event":
             s.assume(z3.Select(newtr, value.t))
@@ -440,6 +436,10 @@ class Yields:
             s.ghost["slots"] = [h for h in held if not h.eq(value.t)]
             s.ghost["released"] = True
         s.ghost.setdefault("waits", []).append((lineno, waited, type(value).__name__))
+        rel = getattr(self.con, "rely", None)
+        if rel:
+            for nm, cl in rel(st, s):
+                s.assume(cl)
         return [(result, s)]
 
     def lib_resource(self, st):
